@@ -82,11 +82,13 @@ class FlakyStream(io.StringIO):
 class Rig:
     """A real ProgressBar wired to FakeTimers and to a stream that can be made to fail."""
 
-    def __init__(self):
+    def __init__(self, ctx_exc=False):
+        # ctx_exc: drive the bar through its context-manager protocol, leaving the with-block through an exception
         FakeTimer.registry = []
         self.pending = []
         self.buf = FlakyStream()
         self.raised = []
+        self.ctx_exc = ctx_exc
         with contextlib.redirect_stdout(self.buf):
             self.bar = outil.ProgressBar(10, None)
 
@@ -104,11 +106,18 @@ class Rig:
             finally:
                 self.buf.broken = False
         elif op == "E":
-            self.bar.enter()
+            if self.ctx_exc:
+                self.bar.__enter__()
+            else:
+                self.bar.enter()
         elif op == "U":
             self.bar.update(1)
         elif op == "X":
-            self.bar.exit()
+            if self.ctx_exc:
+                err = Boom("raised inside the with-block")
+                self.bar.__exit__(Boom, err, None)
+            else:
+                self.bar.exit()
         elif op == "R":
             if self.pending:
                 self.pending.pop(0)()
@@ -367,20 +376,28 @@ def run(chk):
     outil.Timer = FakeTimer
     validated = 0
     try:
-        for tr in traces(5 if thorough else 4) + traces(4 if thorough else 3, failing=True):
-            rig = Rig()
+        base_traces = traces(5 if thorough else 4)
+        plan = [(tr, False) for tr in base_traces + traces(4 if thorough else 3, failing=True)]
+        # the same sequences through the context-manager protocol, the with-block being left through an exception
+        plan += [(tr, True) for tr in base_traces if "X" in tr and len(tr) <= (5 if thorough else 5)]
+        for tr, ctx_exc in plan:
+            rig = Rig(ctx_exc)
             for op in tr:
                 rig.do(op)
             exprs.append("obs " + coq_list([op_lit(o) for o in tr]))
             expected.append(rig.obs())
-            meta.append({"kind": "trace", "ops": tr})
-            chk.case(meta[-1], tuple(tr))
+            meta.append({"kind": "trace", "ops": tr, "with_block_left_through_exception": ctx_exc})
+            chk.case(meta[-1], tuple(tr) + (ctx_exc,))
             validated += 1
+            if ctx_exc:
+                chk.count("serial_traces_context_manager_exception")
             # property oracle: after exit no timer is armed, ever
             if ("X" in tr or "Xf" in tr) and 1 in rig.obs()[1:]:
                 key = "timer-armed-after-exit" if "Xf" not in tr else "timer-armed-after-failing-exit"
-                chk.fail(key, f"ProgressBar: an armed timer remains after exit() in the serial trace {tr}"
-                         + (" (f = the output stream raises in that operation's print)" if any(o.endswith("f") for o in tr) else ""), {"trace": tr})
+                if ctx_exc:
+                    key = "timer-armed-after-exception-exit"
+                chk.fail(key, f"ProgressBar: an armed timer remains after {'the with-block was left through an exception' if ctx_exc else 'exit()'} in the serial trace {tr}"
+                         + (" (f = the output stream raises in that operation's print)" if any(o.endswith("f") for o in tr) else ""), {"trace": tr, "with_block_left_through_exception": ctx_exc})
             if any(o.endswith("f") for o in tr):
                 chk.count("serial_traces_with_failing_prints")
         chk.count("serial_traces", validated)
